@@ -19,7 +19,7 @@ func init() {
 		ID:          "C03",
 		Level:       "other",
 		Run:         runC03,
-		Explanation: "Structural rules over the pipelined variants: R03.1 who-may-write architectural state (Context.Registers/Memory are stored to only by non-scoreboard Context methods and by the variants' line write-back routines; Context writers are called only from write units, branch resolution and Run); R03.2 every write-unit commit is behind the sequence filter `execution.SequenceID > limit` with limit != -1, and from the variant where register results are renamed the write-unit step of a flush cycle receives the limit; R03.3 the pipeline flush reaches the flush/clean of every bus and unit (and bumps the sequence epoch where one is used); R03.4 before the flush, Run drains execute units holding older work with the limit installed and the execute unit's pre-step drops exactly the younger ones; R03.5 branch resolution: taken -> rollback with the branch's own id, not taken -> commit; R03.6 decode stalls after an unconditional jump until the target is reported; R03.7 stores reach a cache only sequence-guarded or gated on unresolved conditional branches; R03.8 the branch/memory classification tables agree with the opcode implementations; R03.10 the flush path contains no explicit panic; R03.11 every read of the memory image by a line fetch is bounded (a wrong-path load may fetch any address); R03.12 the branch unit never misses a flush (assert -> jump/conditionalBranch sets the flush flag whenever the resolved pc differs from the fetched one); R03.13 every dispatch path of the control unit maintains the flags that hold ret and stores behind an unresolved conditional branch; R03.21 every redirect of the fetch unit starts a new sequence epoch; R03.22 the pipeline is flushed to the proposed pc itself; R03.23 the execute unit arms the branch unit's check for the instruction it runs; R03.19 an inner flush proposed during the drain before a flush replaces the pending restart pc and limit; R03.20 the write-back of a line skips the bytes below address 0 and stops only past the end of the image; R03.18 when a jump's target is resolved the branch target buffer is updated and the fetch redirected unconditionally (a buffer hit is never verified elsewhere); R03.17 the one-line-per-access data path tests the sign of an address before it selects a line with a truncating remainder (a wrong-path load can carry a negative address); R03.16 the wholesale commit at the resolution of a not-taken conditional branch is safe only if conditional branches resolve one at a time (held while an older one is unresolved) or the commit is bounded by the branch's sequence id; R03.15 a variant that writes results into the register file directly dispatches in order or holds every instruction while a conditional branch is unresolved; R03.14 the squash restores register state: Context.Rollback/RATRollback, the transactional writes and the tag-bounded rename-table lookups equal the reference model (spec/risc_state.go.txt). Does not decide that sequence ids order instructions correctly across loop iterations and epochs (a value question). R03.24 the flush of a unit written as a suspendable coroutine returns it to its start; R03.25 a drain loop that ends on a local flag clears the flag wherever it finds a component busy; R03.26 a unit's flush empties every container of in-flight instructions it owns (or the step re-creates it every cycle). R03.27 a flag that a unit's emptiness predicate reads and the unit raises while it works is lowered by the unit's flush. R03.28 the control unit's dispatch decision equals its reference model as a decision procedure over the uninterpreted answers of its predicates (one branch per cycle, ret held behind the bus and an unresolved conditional branch, held-back dependences, no-hazard / forwarding / renaming, with their polarity). R03.29 the tag given to an instruction at decode is strictly larger than every tag given before (a decode counter; or a pc-with-stride tag together with a bound on the program length). R03.30 an error produced by an execute unit is not returned by Run unconditionally in the step that produces it (it may be the error of a wrong-path instruction). R03.31 a redirect of the fetch unit that asks for it removes the sequential pcs already pushed behind the jump (the flag guards a Clean of the output bus and is lowered there). R03.32 in the execute loop the sequence limit of a flush requested earlier in the same cycle is stored into each execute unit before it is stepped. R03.33 the control unit's loops honour the stop answer of the dispatch decision (nothing younger is looked at once an instruction is held for a reason that orders the ones behind it) and neither lose nor duplicate an instruction.",
+		Explanation: "Structural rules over the pipelined variants: R03.1 who-may-write architectural state (Context.Registers/Memory are stored to only by non-scoreboard Context methods and by the variants' line write-back routines; Context writers are called only from write units, branch resolution and Run); R03.2 every write-unit commit is behind the sequence filter `execution.SequenceID > limit` with limit != -1, and from the variant where register results are renamed the write-unit step of a flush cycle receives the limit; R03.3 the pipeline flush reaches the flush/clean of every bus and unit (and bumps the sequence epoch where one is used); R03.4 before the flush, Run drains execute units holding older work with the limit installed and the execute unit's pre-step drops exactly the younger ones; R03.5 branch resolution: taken -> rollback with the branch's own id, not taken -> commit; R03.6 decode stalls after an unconditional jump until the target is reported; R03.7 stores reach a cache only sequence-guarded or gated on unresolved conditional branches; R03.8 the branch/memory classification tables agree with the opcode implementations; R03.10 the flush path contains no explicit panic; R03.11 every read of the memory image by a line fetch is bounded (a wrong-path load may fetch any address); R03.12 the branch unit never misses a flush (assert -> jump/conditionalBranch sets the flush flag whenever the resolved pc differs from the fetched one); R03.13 every dispatch path of the control unit maintains the flags that hold ret and stores behind an unresolved conditional branch; R03.21 every redirect of the fetch unit starts a new sequence epoch; R03.22 the pipeline is flushed to the proposed pc itself; R03.23 the execute unit arms the branch unit's check for the instruction it runs; R03.19 an inner flush proposed during the drain before a flush replaces the pending restart pc and limit; R03.20 the write-back of a line skips the bytes below address 0 and stops only past the end of the image; R03.18 when a jump's target is resolved the branch target buffer is updated and the fetch redirected unconditionally (a buffer hit is never verified elsewhere); R03.17 the one-line-per-access data path tests the sign of an address before it selects a line with a truncating remainder (a wrong-path load can carry a negative address); R03.16 the wholesale commit at the resolution of a not-taken conditional branch is safe only if conditional branches resolve one at a time (held while an older one is unresolved) or the commit is bounded by the branch's sequence id; R03.15 a variant that writes results into the register file directly dispatches in order or holds every instruction while a conditional branch is unresolved; R03.14 the squash restores register state: Context.Rollback/RATRollback, the transactional writes and the tag-bounded rename-table lookups equal the reference model (spec/risc_state.go.txt). Does not decide that sequence ids order instructions correctly across loop iterations and epochs (a value question). R03.24 the flush of a unit written as a suspendable coroutine returns it to its start; R03.25 a drain loop that ends on a local flag clears the flag wherever it finds a component busy; R03.26 a unit's flush empties every container of in-flight instructions it owns (or the step re-creates it every cycle). R03.27 a flag that a unit's emptiness predicate reads and the unit raises while it works is lowered by the unit's flush. R03.28 the control unit's dispatch decision equals its reference model as a decision procedure over the uninterpreted answers of its predicates (one branch per cycle, ret held behind the bus and an unresolved conditional branch, held-back dependences, no-hazard / forwarding / renaming, with their polarity). R03.29 the tag given to an instruction at decode is strictly larger than every tag given before (a decode counter; or a pc-with-stride tag together with a bound on the program length). R03.30 an error produced by an execute unit is not returned by Run unconditionally in the step that produces it (it may be the error of a wrong-path instruction). R03.31 a redirect of the fetch unit that asks for it removes the sequential pcs already pushed behind the jump (the flag guards a Clean of the output bus and is lowered there). R03.32 in the execute loop the sequence limit of a flush requested earlier in the same cycle is stored into each execute unit before it is stepped. R03.33 the control unit's loops honour the stop answer of the dispatch decision (nothing younger is looked at once an instruction is held for a reason that orders the ones behind it) and neither lose nor duplicate an instruction. R03.34 every loop of the CPU that waits for buses, coroutines or units runs while ANY of them is busy and steps each of them in its body, on the busy side of any guard (the drains before a flush and at the end of the run complete the older work).",
 		Assumptions: []string{"sequence ids increase in program order within an epoch (not decided)"},
 		Trusted:     []string{"go/types", "role resolution (evidence.anchors)", "E-TERM opcode terms for the derived classification"},
 	})
@@ -1105,6 +1105,8 @@ func runC03(r *Run) {
 	ruleJumpResolutionRedirects(r, "R03.18")
 	r.floor("R03.19", 6)
 	ruleInnerFlushOverrides(r, "R03.19")
+	r.floor("R03.34", 100)
+	ruleWaitLoopsProgress(r, "R03.34")
 	r.floor("R03.33", 20)
 	ruleDispatchConserves(r, "R03.33")
 	r.floor("R03.32", 6)
